@@ -11,7 +11,10 @@ EXPLANATION = (
     "records a name only on the `not yet contained` edge) - G1, holds. The same is demanded of values reaching *struct-identifier* "
     "slots (`pub struct {}` and the type slot of child fields) - G2: the struct-name path (formatted_name -> trace -> expand_name) "
     "passes neither guard: known findings K2 (reserved/prelude names) and K3 (uniqueness), confirmed on the real code "
-    "(findings/known_findings_demo.rs). G3: header slot and field-type slot of a child are the same function of the same trace. "
+    "(findings/known_findings_demo.rs). G3: header slot and field-type slot of a child are the same function of the same trace; "
+    "the producer cuts its name from the own-name end of that trace, over at least as many entries as the hint stored for the name, "
+    "and a name collected at more than one position gets the computed separating length (H7) - the two places where the "
+    "distinguishing length is consumed; without them equal names at different positions yield equal struct names. "
     "NOT decided: sufficiency of the guards for every name set (string semantics), syntactic validity of the whole output.")
 
 CONTAINS = ("core::slice::contains", "std::collections::HashSet::contains", "std::collections::BTreeSet::contains", "std::vec::Vec::contains")
@@ -146,6 +149,8 @@ def core(r, lib, struct_name_guards=True):
     path_fns, reserved_calls, uniq_guards = struct_name_path(r, lib, producers)
     hint_rules(r, lib, path_fns)
     hint_totality(r, lib, path_fns)
+    name_cut_rule(r, lib, producers)
+    shared_name_rule(r, lib, path_fns)
     if not struct_name_guards:
         return
     r.ob("G2.reserved-word-guard", "struct-name path", bool(reserved_calls),
@@ -748,12 +753,6 @@ def hint_totality(r, lib, path_fns):
             why = "every collected name gets an entry (whole table traversed, an insert on every path of the loop body)" if ok else \
                 "the hint table is not filled for every collected name (plain traversal=%s, insert on every path=%s)" % (okn, len(nx) == 1 and every)
         r.ob("H4.hint-for-every-name", bd.name, ok, why, site=site, key="H4|total")
-        for cs in ins:
-            v = strip(term_of(bd, cs.node["args"][2]))
-            if v[0] == "const":
-                okv = isinstance(v[1], int) and v[1] >= 1
-                r.ob("H4.hint-at-least-one", bd.name, okv, "constant hint %r keeps at least the element's own name" % (v[1],) if okv else
-                     "constant hint %r: expand_name would take no trace segment and render an empty struct name" % (v[1],), site=cs, key="H4|const|%s" % (v[1],))
 
 
 def _closure_calls(lib, t):
@@ -790,3 +789,160 @@ def _any_needle(lib, c, g):
     if len(item) == 1 and len(cap) == 1 and len(clo[3]) == 1:
         return strip(list(clo[3].values())[0], mir.VALUE_PRESERVING)
     return None
+
+
+# ---- consumption of the hint (necessary for distinct struct names of equally named elements at different positions) ----
+HINT_MAPS = ("std::collections::HashMap", "std::collections::BTreeMap")
+
+
+def _term_alts(b, t):
+    t = strip(t, mir.VALUE_PRESERVING)
+    if t[0] == "local":
+        a = mir._alternatives(b, t[1], 0, True, frozenset())
+        if a:
+            out = []
+            for x in a:
+                out += _term_alts(b, x) if strip(x, mir.VALUE_PRESERVING) != t else [strip(x, mir.VALUE_PRESERVING)]
+            return out
+    return [t]
+
+
+def _is_own_hint(t, hints_arg):
+    """t == *hints.get(&self.formatted_name()) (Some payload), possibly plus a constant (a longer suffix separates as well)"""
+    t = strip(t, mir.VALUE_PRESERVING)
+    if t[0] == "binop" and t[1] == "Add":
+        a, c = strip(t[2]), strip(t[3])
+        if c[0] == "const" and isinstance(c[1], int) and c[1] >= 0:
+            return _is_own_hint(a, hints_arg)
+        if a[0] == "const" and isinstance(a[1], int) and a[1] >= 0:
+            return _is_own_hint(c, hints_arg)
+        return False
+    if t[0] != "proj":
+        return False
+    path = [e[1] if e[0] == "dc" else e[-1] for e in t[2] if e != "*"]
+    base = strip(t[1])
+    if path != ["Some", "0"] or not (base[0] == "call" and base[1].rsplit("::", 1)[-1] == "get" and base[1].startswith(HINT_MAPS) and len(base[2]) == 2):
+        return False
+    key = strip(base[2][1], mir.VALUE_PRESERVING)
+    return strip(base[2][0]) == ("arg", hints_arg) and key[0] == "call" and key[1].endswith("Element::formatted_name") and strip(key[2][0]) == ("arg", 1)
+
+
+def name_cut_rule(r, lib, producers):
+    """the struct name is built from trace[len(trace) - hints[own formatted name] ..]: the hint counts entries from the own-name
+    end of the trace (H5), so only a suffix of at least that length carries the distinction the hint was computed for.
+    Separator and case of the concatenation are not constrained."""
+    from .common import normal_form
+    n = 0
+    for path in sorted(producers):
+        b0 = lib.bodies.get(path) or next((x for x in lib.real_bodies() if mir._norm(x.name) == path), None)
+        if b0 is None:
+            continue
+        n += 1
+        b = normal_form(lib, b0, also=lambda cb, t: not cb.name.endswith("formatted_name"))
+        f = lib.fns.get(b0.name, {})
+        trace_arg = next((i + 1 for i, t in enumerate(f.get("inputs", [])) if "std::string::String" in t.get("s", "") and t.get("adt") not in HINT_MAPS and
+                          ("[" in t.get("s", "") or "Vec<" in t.get("s", ""))), None)
+        hints_arg = next((i + 1 for i, t in enumerate(f.get("inputs", [])) if t.get("adt") in HINT_MAPS), None)
+        results = []
+        for s_ in b.sites():
+            nd = s_.node
+            if s_.si is not None and nd["k"] == "assign" and nd["place"]["l"] == 0 and not nd["place"]["p"] and nd["rv"]["k"] == "use":
+                results += _term_alts(b, term_of(b, nd["rv"]["op"]))
+            elif s_.si is None and nd["k"] == "call" and nd["dest"]["l"] == 0 and not nd["dest"]["p"]:
+                results.append(("call", cname(nd), [term_of(b, a) for a in nd["args"]], s_))
+        cuts, problems = 0, []
+        for t in results:
+            t = strip(t, mir.VALUE_PRESERVING)
+            if (t[0] == "call" and t[1] in ("std::string::String::new", "std::default::Default::default")) or t == ("const", ""):
+                continue        # no hint stored: H4 shows that this does not happen for an element of the tree
+            if not (t[0] == "call" and t[1].rsplit("::", 1)[-1] in ("join", "concat") and t[2]):
+                problems.append("a result is %s, not a concatenation of trace entries" % term_s(t)[:50])
+                continue
+            sl = strip(t[2][0])
+            if not (sl[0] == "call" and sl[1] == "std::ops::Index::index" and strip(sl[2][0]) == ("arg", trace_arg)):
+                problems.append("the concatenated slice is %s, not a slice of the trace parameter" % term_s(sl)[:50])
+                continue
+            rg = strip(sl[2][1])
+            if not (rg[0] == "agg" and rg[1] == "std::ops::RangeFrom"):
+                problems.append("the slice is `%s`, not a suffix `trace[start..]`: the hint counts from the own name, the last entry" % (rg[1] if rg[0] == "agg" else term_s(rg)[:30]))
+                continue
+            start = strip(rg[3]["start"])
+            ln = nn = None
+            if start[0] == "call" and start[1] in ("core::num::saturating_sub", "core::num::checked_sub", "core::num::wrapping_sub") and len(start[2]) == 2:
+                ln, nn = strip(start[2][0]), strip(start[2][1])
+            elif start[0] == "binop" and start[1] == "Sub":
+                ln, nn = strip(start[2]), strip(start[3])
+            ok_start = ln is not None and ln[0] == "call" and ln[1].rsplit("::", 1)[-1] == "len" and strip(ln[2][0]) == ("arg", trace_arg) and _is_own_hint(nn, hints_arg)
+            if not ok_start:
+                problems.append("the suffix does not start at len(trace) - hints[own formatted name] (start = %s)" % term_s(start)[:70])
+                continue
+            cuts += 1
+        ok = cuts >= 1 and not problems and trace_arg is not None and hints_arg is not None
+        r.ob("G3.name-cut-from-own-end", b0.name, ok,
+             "name = the last hints[own name] (or more) entries of the ancestor trace, or empty without a hint" if ok else
+             ("; ".join(problems) or "no concatenation of a trace suffix found"), site=mir.line_of(b0.span), key="G3|cut|%s" % b0.name)
+    r.ob("G3.name-cut-inventory", "struct-name path", n >= 1, "%d struct-name producer(s) inspected" % n, key="G3|cut-inventory")
+
+
+def shared_name_rule(r, lib, path_fns):
+    """H7: in the hint table, every stored value that is not the separating-length computation is stored under a test
+    that implies the bucket holds at most one trace.  (What a name collected once gets is not constrained.)"""
+    from .common import find_loop_of, normal_form
+    found = 0
+    for n in sorted(path_fns):
+        out = lib.fns.get(n, {}).get("output", {})
+        if not (out.get("adt") in HINT_MAPS and "usize" in out.get("s", "")):
+            continue
+        found += 1
+        bd = normal_form(lib, lib.bodies[n], also=lambda cb, t: cb.name not in path_fns or cb.kind == "closure")
+        ins = [cs for cs in bd.calls() if method(cs.node) == "insert" and cname(cs.node).startswith(HINT_MAPS) and "usize" in arg_ty(bd, cs.node["args"][0]).get("s", "")]
+        pairs = []      # (value term, guards, site)
+        for cs in ins:
+            lp = find_loop_of(bd, cs.bb)
+            within = lp[1] if lp else None
+            v = strip(term_of(bd, cs.node["args"][2]), mir.VALUE_PRESERVING)
+            if v[0] == "local":
+                for d in bd.defs().get(v[1], []):
+                    if d.si is None:
+                        pairs.append((("call", cname(d.node), [term_of(bd, a) for a in d.node["args"]], d), guards_of(bd, d.bb, within=within), d))
+                    elif d.node["k"] == "assign" and d.node["rv"]["k"] == "use" and not d.node["place"]["p"]:
+                        pairs.append((strip(term_of(bd, d.node["rv"]["op"]), mir.VALUE_PRESERVING), guards_of(bd, d.bb, within=within), d))
+            else:
+                pairs.append((v, guards_of(bd, cs.bb, within=within), cs))
+
+        def at_most_one(g):
+            """some guard among g implies len(bucket) <= 1"""
+            for x in g:
+                if not (x[0] == "value" and x[1][0] == "binop"):
+                    continue
+                op, a, c, truth = x[1][1], strip(x[1][2]), strip(x[1][3]), x[2]
+
+                def is_len(l_):
+                    return (l_[0] == "call" and l_[1].rsplit("::", 1)[-1] == "len") or (l_[0] == "unop" and l_[1] == "PtrMetadata")
+                if is_len(c) and a[0] == "const":
+                    a, c = c, a
+                    op = {"Lt": "Gt", "Gt": "Lt", "Le": "Ge", "Ge": "Le"}.get(op, op)
+                if not (is_len(a) and c[0] == "const" and isinstance(c[1], int)):
+                    continue
+                k = c[1]
+                if not truth:
+                    op = {"Eq": "Ne", "Ne": "Eq", "Lt": "Ge", "Ge": "Lt", "Gt": "Le", "Le": "Gt"}[op] if op in ("Eq", "Ne", "Lt", "Ge", "Gt", "Le") else None
+                if (op == "Eq" and k <= 1) or (op == "Lt" and k <= 2) or (op == "Le" and k <= 1):
+                    return True
+            return False
+        # the separating-length computation: a call into the struct-name path (or its inlined result); anything that is a
+        # constant or does not depend on the bucket is a shortcut
+        def is_shortcut(v):
+            return v[0] == "const" or not any(s[0] in ("call", "proj", "local", "arg") for s in mir.subterms(v))
+        for v, g, s_ in pairs:       # every definition of a stored value, not only a literal at the insert itself
+            if v[0] == "const":
+                okv = isinstance(v[1], int) and v[1] >= 1
+                r.ob("H4.hint-at-least-one", bd.name, okv, "constant hint %r keeps at least the element's own name" % (v[1],) if okv else
+                     "constant hint %r: expand_name would take no trace segment and render an empty struct name" % (v[1],), site=s_, key="H4|const|%s" % (v[1],))
+        bad = [(v, g, s_) for v, g, s_ in pairs if is_shortcut(v) and not at_most_one(g)]
+        ok = bool(pairs) and not bad
+        r.ob("H7.shared-name-gets-computed-length", bd.name, ok,
+             "%d stored hint value(s): every constant is stored only for a bucket of at most one trace, names collected at several positions get the computed separating length" % len(pairs) if ok else
+             ("a constant hint is stored for names collected at several positions: %s" % [(term_s(v)[:30], [guard_s(x) for x in g][:2]) for v, g, _ in bad][:3] if bad else "no stored hint value found"),
+             site=(bad or pairs or [(None, None, mir.line_of(bd.span))])[0][2], key="H7|shared")
+    r.ob("H7.hint-table", "struct-name path", found == 1, "%d function(s) building the hint table" % found, key="H7|inventory")
